@@ -53,3 +53,39 @@ package utils
 //@   assert[call:Rename] disk(path) == 0 || disk(path) == 1
 //@   ensures disk(path) == 0 || disk(path) == 1
 //@   ensures err == nil ==> disk(path) == 1
+
+// ---- C05: registry keys are canonical ----------------------------------------------------------------------------
+//@ import "path"
+//@ import "strings"
+// canonical form of a stream path: rooted, lower case, no empty segment, no "." or ".." segment anywhere (a trailing
+// slash is kept). Two spellings that differ only in such segments must not name two registry entries.
+//@ spec func noUpper(s string) bool = forall(i, 0, len(s), !('A' <= s[i] && s[i] <= 'Z'))
+//@ spec func noDotSeg(s string) bool = forall(i, 0, len(s), s[i] == '/' ==> !(i+1 < len(s) && s[i+1] == '/') && !(i+1 < len(s) && s[i+1] == '.' && (i+2 == len(s) || s[i+2] == '/')) && !(i+2 < len(s) && s[i+1] == '.' && s[i+2] == '.' && (i+3 == len(s) || s[i+3] == '/')))
+//@ spec func canonical(s string) bool = len(s) >= 1 && s[0] == '/' && noUpper(s) && noDotSeg(s)
+// assumed (standard library): TrimSpace returns a substring, ToLower leaves no ASCII upper-case letter, Clean of a
+// rooted path is rooted, has no empty, "." or ".." segment, no trailing slash unless it is "/", and only characters of its argument
+//@ extern func strings.TrimSpace(s string) (r string)
+//@   modifies
+//@   ensures len(r) <= len(s)
+//@ extern func strings.ToLower(s string) (r string)
+//@   modifies
+//@   fresh r
+//@   ensures len(r) < 1<<40 && noUpper(r)
+//@ extern func strings.HasPrefix(s string, prefix string) (b bool)
+//@   modifies
+//@   ensures b ==> len(prefix) <= len(s) && forall(i, 0, len(prefix), s[i] == prefix[i])
+//@ extern func strings.Contains(s string, substr string) (b bool)
+//@   modifies
+//@   ensures !b && len(substr) == 2 ==> forall(i, 0, len(s) - 1, !(s[i] == substr[0] && s[i+1] == substr[1]))
+//@   ensures !b && len(substr) == 3 ==> forall(i, 0, len(s) - 2, !(s[i] == substr[0] && s[i+1] == substr[1] && s[i+2] == substr[2]))
+//@   ensures !b && len(substr) == 4 ==> forall(i, 0, len(s) - 3, !(s[i] == substr[0] && s[i+1] == substr[1] && s[i+2] == substr[2] && s[i+3] == substr[3]))
+//@ extern func path.Clean(p string) (r string)
+//@   requires len(p) >= 1 && p[0] == '/' && noUpper(p)
+//@   modifies
+//@   fresh r
+//@   ensures len(r) >= 1 && len(r) <= len(p) && r[0] == '/' && noDotSeg(r) && noUpper(r) && (len(r) > 1 ==> r[len(r)-1] != '/')
+//@ func CanonicalPath(p string) (r string)
+//@   modifies
+//@   ensures len(r) >= 1 && r[0] == '/'
+//@   ensures noUpper(r)
+//@   ensures noDotSeg(r)
